@@ -165,6 +165,41 @@ def bounded(ctx):
                                          observed=str(prod.seq) if prod is not None else list(got)))
             if len(samples) < 2:
                 samples.append(dict(enzyme=e.__name__, chain=chain_len, segments=segs))
+    # junctions that spell a recognition site: the overhang between two modules is the inner part of the enzyme's site and
+    # the neighbouring target letters complete it (each module alone is a valid module; the site only exists in the
+    # product, across the ligation scar).  Swapping in such a module is a replacement like any other.
+    for e in (BsaI, BpiI, BsmBI):
+        site, a, k = be.enzyme_geometry(e)
+        if len(site) != k + 2:
+            continue
+        Mod = type("GModule", (core.Entry,), dict(cutter=e))
+        Vec = type("GVector", (core.EntryVector,), dict(cutter=e))
+        for word in (site, gen.rc(site)):
+            inner, left, right = word[1:-1], word[0], word[-1]
+            o0, o2 = None, None
+            while o0 is None or o2 is None or len({o0, o2, inner, gen.rc(o0), gen.rc(o2), gen.rc(inner)}) < 6:
+                o0, o2 = ba.clean(rng, k, e), ba.clean(rng, k, e)
+            plain0 = ba.build_module(e, o0, ba.clean(rng, 5, e) + "A", inner, rng)
+            t0s = ba.clean(rng, 5, e) + left
+            scar0 = ba.build_module(e, o0, t0s, inner, rng)
+            t1 = right + ba.clean(rng, 5, e)
+            m1 = ba.build_module(e, inner, t1, o2, rng)
+            vtext, vfrag = ba.build_vector(e, o2, o0, rng)
+            if None in (plain0, scar0, m1, vtext):
+                continue
+            evals += 1
+            mk = lambda t_, i_: Mod(CircularRecord(Seq(t_), id=i_))
+            vec = Vec(CircularRecord(Seq(vtext), id="v"))
+            got0, prod0, _ = ba.run_assembly(vec, [mk(plain0, "m0"), mk(m1, "m1")])
+            got1, prod1, _ = ba.run_assembly(vec, [mk(scar0, "r"), mk(m1, "m1")])
+            distinct.add((e.__name__, "scar", word))
+            tail = inner + t1 + vfrag
+            ok = (got0[0] == "product" and got1[0] == "product" and ba.is_rotation(str(prod1.seq), o0 + t0s + tail))
+            if not ok:
+                viol.append(dict(name="scar_%s" % e.__name__, what="%s: a module whose target ends with %r before the junction overhang %r (next target starts with %r: "
+                                 "the product spells %s across the junction) replaces one with the same overhangs: reference %r, replacement %r" % (
+                                     e.__name__, left, inner, right, word, got0[:2], got1[:2]),
+                                 case=dict(enzyme=e.__name__, junction=inner, left=left, right=right)))
     # canonical registry assembly: YTK cassette from parts 1..8 with every same-type replacement available
     try:
         import importlib
